@@ -123,7 +123,16 @@ func trunc(s string) string {
 // the risk.
 func genC19Packet(t *rapid.T, w *world.World) kit.Transfer {
 	tr := genBroadTransfer(t, w)
-	switch pick(t, "c19/class", []string{"plain", "plain", "mutated", "mutated", "mutated", "two-unknown", "hostile", "hostile", "receiver"}) {
+	switch pick(t, "c19/class", []string{"plain", "plain", "mutated", "mutated", "mutated", "two-unknown", "hostile", "hostile", "receiver", "hostile-actions", "hostile-actions"}) {
+	case "hostile-actions":
+		// several pre-actions that are invalid for different reasons at once
+		if memo, err := kit.BuildMemo(w.Cdc, tr, false); err == nil {
+			if tree, err := kit.ParseJSON(memo); err == nil {
+				kit.HostileActionList(t, tree)
+				m := tree.String()
+				tr.RawMemo = &m
+			}
+		}
 	case "mutated":
 		if memo, err := kit.BuildMemo(w.Cdc, tr, false); err == nil {
 			if tree, err := kit.ParseJSON(memo); err == nil {
